@@ -1021,3 +1021,5 @@ def check(ctx, run):  # noqa: F811
     init_forwarding_rule(ctx, run, "C10.R10")
     from ..primaries import param_forwarding_rule
     param_forwarding_rule(ctx, run, "C10.R10")
+    from ..ctors import exports_rule
+    exports_rule(ctx, run, "C10.R9", ['pfhedge.stochastic', 'pfhedge.instruments.primary'])
